@@ -120,11 +120,11 @@ PROPS = {
     },
     'C15': {
         'crate': 'biscuit-auth',
-        'quick': [r'c02_append_(after_block_v0_v1|third_party_after_block)', r'c02_seal_after_block', r'c01_walk_(v1_v1|v0_v1ext)'],
+        'quick': [r'c15_\w+', r'c02_append_(after_block_v0_v1|third_party_after_block)', r'c02_seal_after_block', r'c01_walk_(v1_v1|v0_v1ext)'],
         'thorough': [r'c02_\w+', r'c01_walk_\w+'],
         'cap': {'quick': 600, 'thorough': 1800},
         'per_harness': {r'c0[1278]_\w+': {'unwindset': 'memcmp.0:200'}},
-        'functions': ['format::SerializedBiscuit::{append_serialized,seal,verify_inner}', 'crypto::generate_block_signature_payload_v1'],
+        'functions': ['token::Biscuit::revocation_identifiers', 'token::unverified::UnverifiedBiscuit::revocation_identifiers', 'format::SerializedBiscuit::{append_serialized,seal,verify_inner}', 'crypto::generate_block_signature_payload_v1'],
         'bounds': 'as C01 / C02: append and seal keep every earlier signature bit-identical; every signature but the last is bound into its successor\'s version-1 payload or into the seal',
         'stubs': ['signature oracle', 'alloc::fmt::format'],
         'out': 'uniqueness of identifiers (randomness of next keys), strictness of ed25519 verification, malleability of ECDSA signatures (F12 in DESIGN.md: a high-s re-encoding of the last signature of a secp256r1-signed token changes its identifier - needs the curve order, outside the solver\'s reach); revocation_identifiers() accessors',
